@@ -386,6 +386,15 @@ def run_paths(stmts, env=None, max_paths=256, decide=None, inline=None, fold=Non
                             go([ast.Assign(targets=s.targets, value=ast.Name(id=tmp, ctx=ast.Load()), lineno=s.lineno)] + rest,
                                0, env2, conds + cp.conds, effects + cp.effects)
                     return
+            if isinstance(s, ast.Assign) and isinstance(s.value, ast.Call) and isinstance(s.value.func, ast.Name) and \
+                    s.value.func.id == "divmod" and len(s.value.args) == 2 and not s.value.keywords and len(s.targets) == 1 and \
+                    isinstance(s.targets[0], (ast.Tuple, ast.List)) and len(s.targets[0].elts) == 2:
+                # q, r = divmod(a, b)  ==  q = a // b ; r = a % b   (both from the old a, b)
+                a_, b_ = s.value.args
+                tup = ast.Tuple(elts=[ast.BinOp(left=a_, op=ast.FloorDiv(), right=b_), ast.BinOp(left=a_, op=ast.Mod(), right=b_)], ctx=ast.Load())
+                stmts = [ast.Assign(targets=s.targets, value=tup, lineno=s.lineno)] + stmts[i:]
+                i = 0
+                continue
             if isinstance(s, ast.Assign):
                 val = F(subst(s.value, env))
                 for t in s.targets:
